@@ -977,6 +977,26 @@ def fact_doc_table():
 
 EXPRS = "list (list (string * list Z))"
 
+# Sentinel values for the fact types of this file.  tools/extract_facts.py omits a definition whose type has no
+# sentinel, which would stop Model/Kappa.v (hence the correspondence checker) from compiling: no failing input could
+# then be searched for.  With a sentinel the failure is still recorded in facts.json and every obligation that
+# mentions the fact breaks (the empty list satisfies none of them), but the harness keeps running.
+_SENTINELS = {
+    EXPRS: "[]",
+    "list (string * (string * (Q * Q)))": "[]",
+    "list Q": "[(Qmake (-1)%Z 1%positive)]",
+    "list (Q * Q * Q * Q)": "[]",
+    "list (list Z)": "[]",
+    "list (list Q)": "[]",
+    "string": '"<EXTRACTION-FAILED>"',
+}
+import sys as _sys  # noqa: E402
+
+_main = _sys.modules.get("__main__")
+if _main is not None and isinstance(getattr(_main, "SENTINEL", None), dict):
+    for _k, _v in _SENTINELS.items():
+        _main.SENTINEL.setdefault(_k, _v)
+
 FACTS = [
     ("c15_rot_names", "list string", fact_rot_names),
     ("c15_rot_coeffs", EXPRS, fact_rot_coeffs),
